@@ -662,6 +662,9 @@ func GenValueCase(t *rapid.T, mode ValueGenMode) *ValueCase {
 								p = genValidToken(t, vc.Typ)
 							}
 							p = strings.ReplaceAll(p, ",", "")
+							if chance(t, 1, 10, "emptyitem") {
+								p = "" // "1,,2": an empty list element is an (invalid, for numbers) element, not a separator artefact
+							}
 							if chance(t, 1, 3, "pad") {
 								p = " " + p + "\t"
 							}
